@@ -23,72 +23,389 @@ def fyDraws (n : Nat) (ds : List Nat) : List Nat := fyPure 0 (List.range n) ds
 def ValidDraws (n : Nat) (ds : List Nat) : Prop :=
   ds.length = n - 1 ∧ ∀ i (h : i < ds.length), ds[i] < n - i
 
+/-! ### helper lemmas -/
+
+
+theorem swap_length (l : List Nat) (i j : Nat) : (swap l i j).length = l.length := by
+  simp [swap]
+
+theorem getElem?_swap (l : List Nat) (i j k : Nat) (hi : i < l.length) (hj : j < l.length) :
+    (swap l i j)[k]? = if k = j then l[i]? else if k = i then l[j]? else l[k]? := by
+  unfold swap
+  simp only [List.getElem?_set, List.length_set, List.getD_eq_getElem?_getD,
+    List.getElem?_eq_getElem hi, List.getElem?_eq_getElem hj, Option.getD_some]
+  by_cases h1 : k = j
+  · subst h1; simp [hj]
+  · by_cases h2 : k = i
+    · subst h2; simp [hi, h1, Ne.symm h1]
+    · simp [h1, h2, Ne.symm h1, Ne.symm h2]
+
+theorem swap_perm (l : List Nat) (i j : Nat) (hi : i < l.length) (hj : j < l.length) :
+    (swap l i j).Perm l := by
+  by_cases hij : i = j
+  · subst hij
+    have : swap l i i = l := by
+      apply List.ext_getElem?
+      intro k
+      rw [getElem?_swap l i i k hi hi]
+      split_ifs with h <;> simp [h]
+    rw [this]
+  · rw [List.perm_iff_count]
+    intro a
+    unfold swap
+    rw [List.count_set (by simpa using hj), List.count_set hi]
+    simp only [List.getElem_set, if_neg hij, List.getD_eq_getElem?_getD,
+      List.getElem?_eq_getElem hi, List.getElem?_eq_getElem hj, Option.getD_some]
+    have h1 : (if l[i] == a then 1 else 0) ≤ l.count a := by
+      split_ifs with h
+      · have : l[i] = a := by simpa using h
+        exact List.count_pos_iff.mpr (this ▸ List.getElem_mem hi)
+      · exact Nat.zero_le _
+    omega
+
+theorem getElem?_swap_left (l : List Nat) (i j : Nat) (hi : i < l.length) (hj : j < l.length) :
+    (swap l i j)[i]? = l[j]? := by
+  rw [getElem?_swap l i j i hi hj]
+  by_cases h : i = j
+  · subst h; simp
+  · simp [h]
+
+theorem getElem?_swap_of_lt (l : List Nat) (i d k : Nat) (hk : k < i) :
+    (swap l i (i + d))[k]? = l[k]? := by
+  unfold swap
+  rw [List.getElem?_set, List.getElem?_set]
+  have h1 : i + d ≠ k := by omega
+  have h2 : i ≠ k := by omega
+  simp [h1, h2]
+
+/-- draws `ds` are admissible from position `i` on for a list of length `len` -/
+def DrawsOK (len : Nat) : Nat → List Nat → Prop
+  | _, [] => True
+  | i, d :: ds => d < len - i ∧ DrawsOK len (i + 1) ds
+
+theorem drawsOK_of_forall (len : Nat) : ∀ (ds : List Nat) (i : Nat),
+    (∀ k (h : k < ds.length), ds[k] < len - (i + k)) → DrawsOK len i ds
+  | [], _, _ => trivial
+  | d :: ds, i, h => by
+    refine ⟨by have := h 0 (by simp); simpa using this, drawsOK_of_forall len ds (i + 1) ?_⟩
+    intro k hk
+    have := h (k + 1) (by simpa using hk)
+    simp only [List.getElem_cons_succ] at this
+    omega
+
+theorem ValidDraws.drawsOK {n : Nat} {ds : List Nat} (h : ValidDraws n ds) : DrawsOK n 0 ds :=
+  drawsOK_of_forall n ds 0 (by intro k hk; simpa using h.2 k hk)
+
+theorem fyPure_length : ∀ (ds : List Nat) (i : Nat) (pi : List Nat),
+    (fyPure i pi ds).length = pi.length
+  | [], _, _ => rfl
+  | d :: ds, i, pi => by
+    rw [fyPure, fyPure_length ds, swap_length]
+
+theorem fyPure_perm : ∀ (ds : List Nat) (i : Nat) (pi : List Nat),
+    DrawsOK pi.length i ds → (fyPure i pi ds).Perm pi
+  | [], _, _, _ => List.Perm.refl _
+  | d :: ds, i, pi, h => by
+    rw [fyPure]
+    have hd : d < pi.length - i := h.1
+    refine (fyPure_perm ds (i + 1) _ ?_).trans (swap_perm pi i (i + d) (by omega) (by omega))
+    rw [swap_length]; exact h.2
+
+theorem fyPure_getElem?_of_lt : ∀ (ds : List Nat) (i : Nat) (pi : List Nat) (k : Nat), k < i →
+    (fyPure i pi ds)[k]? = pi[k]?
+  | [], _, _, _, _ => rfl
+  | d :: ds, i, pi, k, hk => by
+    rw [fyPure, fyPure_getElem?_of_lt ds (i + 1) _ k (by omega), getElem?_swap_of_lt _ _ _ _ hk]
+
+theorem fyPure_cons_getElem? (d : Nat) (ds : List Nat) (i : Nat) (pi : List Nat)
+    (hd : d < pi.length - i) : (fyPure i pi (d :: ds))[i]? = pi[i + d]? := by
+  rw [fyPure, fyPure_getElem?_of_lt ds (i + 1) _ i (by omega),
+    getElem?_swap_left pi i (i + d) (by omega) (by omega)]
+
+theorem fyPure_inj : ∀ (ds ds' : List Nat) (i : Nat) (pi : List Nat), pi.Nodup →
+    ds.length = ds'.length → DrawsOK pi.length i ds → DrawsOK pi.length i ds' →
+    fyPure i pi ds = fyPure i pi ds' → ds = ds'
+  | [], [], _, _, _, _, _, _, _ => rfl
+  | [], _ :: _, _, _, _, hl, _, _, _ => by simp at hl
+  | _ :: _, [], _, _, _, hl, _, _, _ => by simp at hl
+  | d :: ds, d' :: ds', i, pi, hnd, hl, h, h', heq => by
+    have hd : d < pi.length - i := h.1
+    have hd' : d' < pi.length - i := h'.1
+    have e : pi[i + d]? = pi[i + d']? := by
+      rw [← fyPure_cons_getElem? d ds i pi hd, ← fyPure_cons_getElem? d' ds' i pi hd', heq]
+    have hlt : i + d < pi.length := by omega
+    have hlt' : i + d' < pi.length := by omega
+    rw [List.getElem?_eq_getElem hlt, List.getElem?_eq_getElem hlt', Option.some_inj] at e
+    have hdd : d = d' := by
+      have := (List.Nodup.getElem_inj_iff hnd).mp e
+      omega
+    subst hdd
+    congr 1
+    have hsw := swap_perm pi i (i + d) (by omega) hlt
+    refine fyPure_inj ds ds' (i + 1) (swap pi i (i + d)) (hsw.nodup_iff.mpr hnd)
+      (by simpa using hl) ?_ ?_ heq
+    · rw [swap_length]; exact h.2
+    · rw [swap_length]; exact h'.2
+
+
+
+theorem forall_of_drawsOK (len : Nat) : ∀ (ds : List Nat) (i : Nat), DrawsOK len i ds →
+    ∀ k (h : k < ds.length), ds[k] < len - (i + k)
+  | [], _, _, k, h => by simp at h
+  | d :: ds, i, hok, 0, _ => by simpa using hok.1
+  | d :: ds, i, hok, k + 1, h => by
+    have := forall_of_drawsOK len ds (i + 1) hok.2 k (by simpa using h)
+    simp only [List.getElem_cons_succ]
+    omega
+
+/-- an arrangement agreeing with `pi` before `i` takes its `i`-th element from a position `≥ i` -/
+theorem exists_index_ge (pi l : List Nat) (i : Nat) (hnd : pi.Nodup) (hp : l.Perm pi)
+    (hi : i < pi.length) (hag : ∀ k, k < i → l[k]? = pi[k]?) :
+    ∃ j, i ≤ j ∧ j < pi.length ∧ pi[j]? = l[i]? := by
+  have hli : i < l.length := by rw [hp.length_eq]; exact hi
+  have hmem : l[i] ∈ pi := hp.subset (List.getElem_mem hli)
+  obtain ⟨j, hj, hje⟩ := List.getElem_of_mem hmem
+  refine ⟨j, ?_, hj, ?_⟩
+  · by_contra hlt
+    have hlt : j < i := by omega
+    have h1 := hag j hlt
+    have hjl : j < l.length := by omega
+    rw [List.getElem?_eq_getElem hjl, List.getElem?_eq_getElem hj, Option.some_inj] at h1
+    have hlnd : l.Nodup := hp.nodup_iff.mpr hnd
+    have : j = i := (List.Nodup.getElem_inj_iff hlnd).mp (h1.trans hje)
+    omega
+  · rw [List.getElem?_eq_getElem hj, List.getElem?_eq_getElem hli, hje]
+
+theorem fyPure_surj : ∀ (m i : Nat) (pi l : List Nat), pi.Nodup → i + m + 1 = pi.length →
+    l.Perm pi → (∀ k, k < i → l[k]? = pi[k]?) →
+    ∃ ds, ds.length = m ∧ DrawsOK pi.length i ds ∧ fyPure i pi ds = l
+  | 0, i, pi, l, hnd, hlen, hp, hag => by
+    refine ⟨[], rfl, trivial, ?_⟩
+    show pi = l
+    apply List.ext_getElem?
+    intro k
+    by_cases hk : k < i
+    · exact (hag k hk).symm
+    · by_cases hk' : k = i
+      · subst hk'
+        obtain ⟨j, h1, h2, h3⟩ := exists_index_ge pi l k hnd hp (by omega) hag
+        have : j = k := by omega
+        subst this
+        exact h3
+      · have := hp.length_eq
+        rw [List.getElem?_eq_none (by omega), List.getElem?_eq_none (by omega)]
+  | m + 1, i, pi, l, hnd, hlen, hp, hag => by
+    obtain ⟨j, h1, h2, h3⟩ := exists_index_ge pi l i hnd hp (by omega) hag
+    obtain ⟨d, rfl⟩ : ∃ d, j = i + d := ⟨j - i, by omega⟩
+    have hsw := swap_perm pi i (i + d) (by omega) h2
+    obtain ⟨ds, hl, hok, he⟩ := fyPure_surj m (i + 1) (swap pi i (i + d)) l
+      (hsw.nodup_iff.mpr hnd) (by rw [swap_length]; omega) (hp.trans hsw.symm) (by
+        intro k hk
+        by_cases hk' : k < i
+        · rw [getElem?_swap_of_lt _ _ _ _ hk']; exact hag k hk'
+        · have : k = i := by omega
+          subst this
+          rw [getElem?_swap_left pi k (k + d) (by omega) h2]; exact h3.symm)
+    rw [swap_length] at hok
+    exact ⟨d :: ds, by simp [hl], ⟨by omega, hok⟩, he⟩
+
+theorem nomodbias_some (m : Nat) : ∀ (ws : List Nat) (u : Nat) (rest : List Nat),
+    nomodbias m ws = .ok (some (u, rest)) → 2 ≤ m
+  | [], u, rest, h => by
+    unfold nomodbias at h
+    split_ifs at h
+    cases h
+  | w :: ws, u, rest, h => by
+    unfold nomodbias at h
+    split_ifs at h with h1 h2
+    · omega
+    · exact nomodbias_some m ws u rest h
+
+theorem randomMod_some (m : Nat) (ws : List Nat) (v : Nat) (rest : List Nat)
+    (h : randomMod m ws = .ok (some (v, rest))) : 2 ≤ m ∧ v < m := by
+  unfold randomMod at h
+  split at h
+  · cases h
+  · cases h
+  · rename_i u r hn
+    have h2 := nomodbias_some m ws u r hn
+    simp only [Except.ok.injEq, Option.some.injEq, Prod.mk.injEq] at h
+    obtain ⟨rfl, rfl⟩ := h
+    exact ⟨h2, Nat.mod_lt _ (by omega)⟩
+
+theorem fyGo_spec (n : Nat) : ∀ (steps i : Nat) (pi ws res rest : List Nat),
+    fyGo n steps i pi ws = .ok (some (res, rest)) →
+    ∃ ds, ds.length = steps ∧ DrawsOK n i ds ∧ res = fyPure i pi ds
+  | 0, i, pi, ws, res, rest, h => by
+    simp only [fyGo, Except.ok.injEq, Option.some.injEq, Prod.mk.injEq] at h
+    obtain ⟨rfl, rfl⟩ := h
+    exact ⟨[], rfl, trivial, rfl⟩
+  | steps + 1, i, pi, ws, res, rest, h => by
+    rw [fyGo] at h
+    split at h
+    · cases h
+    · cases h
+    · rename_i d r hr
+      have hd := (randomMod_some _ _ _ _ hr).2
+      obtain ⟨ds, hl, hok, he⟩ := fyGo_spec n steps (i + 1) _ r res rest h
+      exact ⟨d :: ds, by simp [hl], ⟨hd, hok⟩, he⟩
+
+theorem mod_cases (a n : Nat) (h : a < 2 * n) : a % n = if a < n then a else a - n := by
+  split_ifs with h1
+  · exact Nat.mod_eq_of_lt h1
+  · rw [Nat.mod_eq_sub_mod (by omega)]; exact Nat.mod_eq_of_lt (by omega)
+
+theorem foldl_bytes_lt : ∀ (bs : List Nat) (acc : Nat), (∀ b ∈ bs, b < 256) →
+    bs.foldl (fun acc b => acc * 256 + b) acc < (acc + 1) * 256 ^ bs.length
+  | [], acc, _ => by simp
+  | b :: bs, acc, hb => by
+    have hb0 : b < 256 := hb b (by simp)
+    have ih := foldl_bytes_lt bs (acc * 256 + b) (fun x hx => hb x (by simp [hx]))
+    rw [List.foldl_cons, List.length_cons, pow_succ]
+    calc _ < (acc * 256 + b + 1) * 256 ^ bs.length := ih
+      _ ≤ ((acc + 1) * 256) * 256 ^ bs.length := Nat.mul_le_mul_right _ (by omega)
+      _ = (acc + 1) * (256 ^ bs.length * 256) := by ring
+
+theorem card_filter_mod (m N v : Nat) (hm : 0 < m) (hv : v < m) :
+    ((Finset.range N).filter (fun u => u % m = v)).card
+      = N / m + if v < N % m then 1 else 0 := by
+  have hset : (Finset.range N).filter (fun u => u % m = v)
+      = (Finset.range N).filter (fun u => u ≡ v [MOD m]) := by
+    ext u
+    simp [Nat.ModEq, Nat.mod_eq_of_lt hv]
+  rw [hset, ← Nat.count_eq_card_filter_range, Nat.count_modEq_card N hm v, Nat.mod_eq_of_lt hv]
+
 /-- the model's word-consuming loop computes `fyDraws` of the reduced accepted words:
     whenever `randomPermutationFast` succeeds, there is a valid draw vector producing its result -/
 theorem randomPermutationFast_eq_fyDraws (n : Nat) (hn : 1 ≤ n) (ws : List Nat) (pi rest : List Nat)
     (h : randomPermutationFast n ws = .ok (some (pi, rest))) :
     ∃ ds, ValidDraws n ds ∧ pi = fyDraws n ds := by
-  sorry
+  have _ := hn
+  obtain ⟨ds, hl, hok, he⟩ := fyGo_spec n (n - 1) 0 (List.range n) ws pi rest h
+  exact ⟨ds, ⟨hl, fun i hi => by simpa using forall_of_drawsOK n ds 0 hok i hi⟩, he⟩
 
 /-- every result is a permutation of `0..n-1` -/
 theorem fyDraws_perm (n : Nat) (ds : List Nat) (h : ValidDraws n ds) :
     (fyDraws n ds).Perm (List.range n) := by
-  sorry
+  unfold fyDraws
+  exact fyPure_perm ds 0 (List.range n) (by rw [List.length_range]; exact h.drawsOK)
 
 /-- different draw vectors give different arrangements -/
 theorem fyDraws_injective (n : Nat) (ds ds' : List Nat) (h : ValidDraws n ds) (h' : ValidDraws n ds')
     (heq : fyDraws n ds = fyDraws n ds') : ds = ds' := by
-  sorry
+  exact fyPure_inj ds ds' 0 (List.range n) List.nodup_range (by rw [h.1, h'.1])
+    (by rw [List.length_range]; exact h.drawsOK) (by rw [List.length_range]; exact h'.drawsOK) heq
 
 /-- every arrangement is reached: with injectivity, the `n!` equiprobable draw vectors are in
     bijection with the `n!` arrangements -/
 theorem fyDraws_surjective (n : Nat) (hn : 1 ≤ n) (l : List Nat) (hl : l.Perm (List.range n)) :
     ∃ ds, ValidDraws n ds ∧ fyDraws n ds = l := by
-  sorry
+  obtain ⟨ds, hlen, hok, he⟩ := fyPure_surj (n - 1) 0 (List.range n) l List.nodup_range
+    (by rw [List.length_range]; omega) hl (by intro k hk; omega)
+  rw [List.length_range] at hok
+  exact ⟨ds, ⟨hlen, fun i hi => by simpa using forall_of_drawsOK n ds 0 hok i hi⟩, he⟩
 
 /-- the rotation generator: `pi[i] = (r+i) % n`, reported offset `o = (n-r) % n` -/
 theorem randomRotation_spec (n : Nat) (ws : List Nat) (pi : List Nat) (o : Nat) (rest : List Nat)
     (h : randomRotation n ws = .ok (some (pi, o, rest))) :
     2 ≤ n ∧ pi.length = n ∧ o < n ∧ pi.Perm (List.range n) ∧
     ∀ i, i < n → pi[(o + i) % n]? = some i := by
-  sorry
+  unfold randomRotation at h
+  split at h
+  · cases h
+  · cases h
+  · rename_i r rest' hr
+    obtain ⟨hn2, hr'⟩ := randomMod_some _ _ _ _ hr
+    simp only [Except.ok.injEq, Option.some.injEq, Prod.mk.injEq] at h
+    obtain ⟨rfl, rfl, rfl⟩ := h
+    have hnd : ((List.range n).map (fun i => (r + i) % n)).Nodup := by
+      refine List.Nodup.map_on ?_ List.nodup_range
+      intro a ha b hb hab
+      rw [List.mem_range] at ha hb
+      rw [mod_cases _ n (by omega), mod_cases _ n (by omega)] at hab
+      split_ifs at hab <;> omega
+    have hsub : (List.range n).map (fun i => (r + i) % n) ⊆ List.range n := by
+      intro x hx
+      rw [List.mem_map] at hx
+      obtain ⟨a, _, rfl⟩ := hx
+      exact List.mem_range.mpr (Nat.mod_lt _ (by omega))
+    refine ⟨hn2, by simp, Nat.mod_lt _ (by omega),
+      (List.subperm_of_subset hnd hsub).perm_of_length_le (by simp), ?_⟩
+    intro i hi
+    have h1 := mod_cases (n - r) n (by omega)
+    generalize (n - r) % n = o at h1 ⊢
+    have ho : o < n := by split_ifs at h1 <;> omega
+    have h2 := mod_cases (o + i) n (by omega)
+    generalize (o + i) % n = p at h2 ⊢
+    have hp : p < n := by split_ifs at h2 <;> omega
+    have h3 := mod_cases (r + p) n (by omega)
+    rw [List.getElem?_map, List.getElem?_range hp, Option.map_some, h3]
+    congr 1
+    split_ifs at h1 h2 ⊢ <;> omega
 
 /-- the map accepted residue `r ↦ offset` is a bijection on `{0..n-1}`: uniform offsets -/
 theorem rotation_offset_bijective (n : Nat) (hn : 0 < n) :
     Function.Bijective (fun r : Fin n => (⟨(n - r.val) % n, Nat.mod_lt _ hn⟩ : Fin n)) := by
-  sorry
+  apply Function.Involutive.bijective
+  intro r
+  apply Fin.ext
+  simp only
+  have hr := r.isLt
+  have h1 := mod_cases (n - r.val) n (by omega)
+  generalize (n - r.val) % n = o at h1 ⊢
+  have ho : o ≤ n := by split_ifs at h1 <;> omega
+  rw [mod_cases (n - o) n (by omega)]
+  split_ifs at h1 ⊢ <;> omega
 
 /-! ### big residues -/
 
 /-- `tmcg_mpz_*randomm`: result in `[0, m)` for every byte string served -/
 theorem randomm_range (m : Int) (hm : 0 < m) (bytes : List Nat) (v : Int)
     (h : randomm m bytes = .ok v) : 0 ≤ v ∧ v < m := by
-  sorry
+  unfold randomm mpzMod at h
+  rw [if_neg (by omega)] at h
+  injection h with h
+  subst h
+  exact ⟨Int.emod_nonneg _ (by omega), Int.emod_lt_of_pos _ hm⟩
 
 /-- big-endian value of `k` bytes is below `256^k` -/
 theorem beBytes_lt (bs : List Nat) (hb : ∀ b ∈ bs, b < 256) : beBytes bs < 256 ^ bs.length := by
-  sorry
+  simpa [beBytes] using foldl_bytes_lt bs 0 hb
 
 /-- bias bound for reducing a uniform `B`-bit value modulo `m`: the numbers of raw values
     mapping to two residues differ by at most one -/
 theorem residue_count_bias (m N v v' : Nat) (hm : 0 < m) (hv : v < m) (hv' : v' < m) :
     ((Finset.range N).filter (fun u => u % m = v)).card
       ≤ ((Finset.range N).filter (fun u => u % m = v')).card + 1 := by
-  sorry
+  rw [card_filter_mod m N v hm hv, card_filter_mod m N v' hm hv']
+  split_ifs <;> omega
 
 /-- and each residue is hit at least `N / m` times; with `N = 256^randommBytes m ≥ 2^64 · m`
     the relative bias is at most `2^-64` -/
 theorem residue_count_lower (m N v : Nat) (hm : 0 < m) (hv : v < m) :
     N / m ≤ ((Finset.range N).filter (fun u => u % m = v)).card := by
-  sorry
+  rw [card_filter_mod m N v hm hv]
+  omega
 
 theorem randomm_space_large (m : Nat) (hm : 0 < m) :
     2 ^ 64 * m ≤ 256 ^ randommBytes (m : Int) := by
-  sorry
+  unfold randommBytes bitlen
+  simp only [Int.natAbs_natCast]
+  rw [if_neg (by omega)]
+  have h1 : m < 2 ^ (m.log2 + 1) := Nat.lt_log2_self
+  have h256 : (256 : Nat) = 2 ^ 8 := by norm_num
+  rw [h256, ← pow_mul]
+  calc 2 ^ 64 * m ≤ 2 ^ 64 * 2 ^ (m.log2 + 1) := Nat.mul_le_mul_left _ h1.le
+    _ = 2 ^ (64 + (m.log2 + 1)) := (pow_add _ _ _).symm
+    _ ≤ 2 ^ (8 * ((m.log2 + 1 + 64 + 7) / 8)) := Nat.pow_le_pow_right (by norm_num) (by omega)
 
 /-- `tmcg_mpz_*randomb`: result below `2^size` -/
 theorem randomb_range (size : Nat) (bytes : List Nat) (v : Nat) (h : randomb size bytes = .ok v) :
     v < 2 ^ size ∧ 0 < size := by
-  sorry
+  unfold randomb at h
+  split_ifs at h with h0
+  injection h with h
+  subst h
+  exact ⟨Nat.mod_lt _ (by positivity), by omega⟩
 
 end Tmcg.Rng
